@@ -1,3 +1,7 @@
 import CbProps.C17
 import CbProps.C05
 import CbProps.C04
+import CbProps.C01
+import CbProps.C03
+import CbProps.C08
+import CbProps.C02
